@@ -14,10 +14,10 @@ use crate::val::{self, GenOpts, V};
 
 pub fn alphabet(fmt: &str) -> Vec<&'static [u8]> {
     match fmt {
-        "json" => vec![b"{", b"}", b"[", b"]", b":", b",", b"\"a\"", b"\"", b"1", b"-", b"1.5e3", b"true", b"null", b" ", b"\n", b"\"\\u00e9\"", b"\"\\ud800\"", b"tru", b"0", b".", b"e", b"\\", b"\xff", b"1e999"],
-        "yaml" => vec![b"---\n", b"...\n", b"- ", b"a: ", b"? ", b": ", b"[", b"]", b"{", b"}", b",", b"&a ", b"*a", b"!!str ", b"|\n", b">\n", b"\"x\"", b"'y'", b"#c\n", b"\n", b"  ", b"\t", b"%YAML 1.2\n", b"<<: "],
-        "toml" => vec![b"a", b" = ", b"1", b"\"s\"", b"[t]\n", b"[[t]]\n", b"\n", b"{", b"}", b"[", b"]", b",", b".", b"'l'", b"\"\"\"", b"#c\n", b"1979-05-27", b"inf", b"true", b"t", b"0x", b"_", b"\xff", b"a.b"],
-        _ => vec![b"\x80", b"\x81", b"\x90", b"\x91", b"\x92", b"\xa0", b"\xa1a", b"\xc0", b"\xc1", b"\xc2", b"\x01", b"\xff", b"\xcc", b"\xcd\x01", b"\xd9\x01a", b"\xda", b"\xdc\x00\x01", b"\xdd\x00\x00\x00\x01", b"\xdf\xff\xff\xff\xff", b"\xc4\x01", b"\xc7\x01", b"\xd4\x01\x02", b"\xca", b"\xcb"],
+        "json" => vec![b"{", b"}", b"[", b"]", b":", b",", b"\"a\"", b"\"", b"1", b"-", b"1.5e3", b"true", b"null", b" ", b"\n", b"\"\\u00e9\"", b"\"\\ud800\"", b"tru", b"0", b".", b"e", b"\\", b"\xff", b"1e999", b"\x0c", b"\xc2\xa0"],
+        "yaml" => vec![b"---\n", b"...\n", b"- ", b"a: ", b"? ", b": ", b"[", b"]", b"{", b"}", b",", b"&a ", b"*a", b"!!str ", b"|\n", b">\n", b"\"x\"", b"'y'", b"#c\n", b"\n", b"  ", b"\t", b"%YAML 1.2\n", b"<<: ", b"\xef\xbb\xbf", b"\xe2\x80\xa8"],
+        "toml" => vec![b"a", b" = ", b"1", b"\"s\"", b"[t]\n", b"[[t]]\n", b"\n", b"{", b"}", b"[", b"]", b",", b".", b"'l'", b"\"\"\"", b"#c\n", b"1979-05-27", b"inf", b"true", b"t", b"0x", b"_", b"\xff", b"a.b", b"\x0c", b"\xef\xbb\xbf"],
+        _ => vec![b"\x80", b"\x81", b"\x90", b"\x91", b"\x92", b"\xa0", b"\xa1a", b"\xc0", b"\xc1", b"\xc2", b"\x01", b"\xff", b"\xcc", b"\xcd\x01", b"\xd9\x01a", b"\xda", b"\xdc\x00\x01", b"\xdd\x00\x00\x00\x01", b"\xdf\xff\xff\xff\xff", b"\xc4\x01", b"\xc7\x01", b"\xd4\x01\x02", b"\xca", b"\xcb", b"\xc6\x00\x00\x00\x01", b"\xd6\x01"],
     }
 }
 
@@ -81,6 +81,15 @@ fn adversarial(rng: &mut Rng) -> Vec<(String, &'static str, Vec<u8>)> {
     }
     for t in ["", "a", "a =", "a = 1\na = 2", "[a]\n[a]", "a.b = 1\na = 2", "a = 1979-05-27T07:32:00Z", "a = 99999999999999999999", "a = [1, {b = [2, {c = 3}]}]", "[[a]]\n[a]", "a = \"\\uD800\"", "\"\" = 1", "a = 0x", "a = nan", "a = -inf", "a = {b = 1, b = 2}"] {
         v.push((format!("toml-{t:?}"), "toml", t.as_bytes().to_vec()));
+    }
+    // errors whose text quotes a long non-ASCII line or key (whatever shortens or decorates a message must
+    // respect character boundaries): every alignment of the multi-byte characters against the byte count
+    for pad in 0..6usize {
+        let k = "k".repeat(pad + 1);
+        v.push((format!("toml-long-unterminated-{pad}"), "toml", format!("{k} = \"{}\n", "\u{e9}".repeat(400)).into_bytes()));
+        v.push((format!("toml-long-cjk-{pad}"), "toml", format!("{k} = {}\n", "\u{6f22}\u{1f600}".repeat(200)).into_bytes()));
+        v.push((format!("yaml-null-under-long-key-{pad}"), "yaml", format!("{k}{}: ~\n", "\u{1f600}".repeat(160)).into_bytes()));
+        v.push((format!("json-long-key-then-error-{pad}"), "json", format!("{{\"{k}{}\": tru}}", "\u{e9}\u{20ac}".repeat(150)).into_bytes()));
     }
     // nesting far beyond every format's limit (a missing limit shows as the death of the worker)
     for fmt in ["json", "yaml", "toml", "msgpack"] {
